@@ -20,7 +20,8 @@ CFG = dict(
                  "at-exit callbacks are registered from the thread function, not from other at-exit callbacks"],
     min_counts={"any": {"join_all_called_before_all_finished": 30, "managed_thread_launched_by_thread": 30,
                         "pthread_create_failed": 20, "several_at_exit_callbacks": 50,
-                        "library_reinit_with_managed_threads_outstanding": 20, "timed_join_all_gave_up": 20}},
+                        "library_reinit_with_managed_threads_outstanding": 20, "timed_join_all_gave_up": 20,
+                        "external_decrement_while_join_all_blocked": 20}},
 )
 
 META = dict(
